@@ -397,6 +397,10 @@ def run(model: RepoModel, rep, tier: str):
                        "and used as the phase-3 item id) involves every field __eq__ compares", 2)
     from .c09 import check_callsite_identity
     check_callsite_identity(model, rep, "C15.R7")
+    from ..generic import check_shared_class_state
+    rep.rule("C15.R8", "every loader keeps its own tables: a mutable object bound in a class body of the loader / table modules is never written "
+                       "through self (one loader's index or cache would be every loader's)", 0)
+    check_shared_class_state(model, rep, "C15.R8", ["util/loader.py", "util/data_model.py"])
 
     # ------------------------------------------------------------------ R1
     # role: the cache consulted first by the reader
